@@ -45,7 +45,32 @@ def sym_case(draw):
         s["amp"] = draw(st.sampled_from([0.05, 1.0, 30.0]))
     return dict(fg=fg, dg=dg, dims=dims, specs=specs, dtype=draw(st.sampled_from(["float64", "float32"])),
                 k=10 ** (draw(st.integers(-600, 600)) / 100.0), floor=draw(st.booleans()), a=draw(st.one_of(st.floats(-720, 720), st.integers(-5, 5).map(lambda m: m * 1.0), st.sampled_from([360.0, -360.0, 180.0, 90.0, 1e-3]))),
-                amult=draw(st.integers(-40, 40)), depth=draw(st.one_of(st.none(), st.floats(1.0, 500.0))))
+                amult=draw(st.integers(-40, 40)), depth=draw(st.one_of(st.none(), st.floats(1.0, 500.0))),
+                mirror=draw(st.sampled_from([None, None, None, "node", "edge"])), to_north=draw(st.booleans()))
+
+
+def _axis(case):
+    """(axis direction, stored-index permutation of the reflection about it) for the `mirror` option, or None when the
+    direction grid does not map onto itself under that reflection (partial or non-uniform grids)."""
+    if not case.get("mirror"):
+        return None
+    d = np.array(case["dg"]["d"], dtype=float)
+    if len(d) < 3:
+        return None
+    ds_ = np.sort(d)
+    dd = float(ds_[1] - ds_[0])
+    th0 = float(ds_[0]) if case["mirror"] == "node" else float(ds_[0]) - 0.5 * dd
+    idx = []
+    for x in d:
+        m = (2.0 * th0 - x) % 360.0
+        diff = np.abs((d - m + 180.0) % 360.0 - 180.0)
+        j = int(np.argmin(diff))
+        if diff[j] > 1e-9:
+            return None
+        idx.append(j)
+    if sorted(idx) != list(range(len(d))):
+        return None
+    return th0 % 360.0, idx
 
 
 def _build(case):
@@ -64,6 +89,11 @@ def _build(case):
             E[0, 0] = 1.0
         if case.get("floor"):
             E += 1e-4 * E.max()
+        ax = _axis(case)
+        if ax is not None:
+            # a spectrum symmetric about a grid node / a cell edge: its mean direction lies exactly on that axis, which a
+            # relabelling can put on the 0/360 seam
+            E[:] = E + E[:, ax[1]]
         E[E < E.max() * 1e-6] = 0
         if np.sum(E.sum(axis=1) > 0) < 2:
             i = int(np.argmax(E.sum(axis=1)))
@@ -232,6 +262,12 @@ def check_rotation(case, ctx):
     if case["amult"] % 3 == 0:
         a = case["amult"] * (360.0 / case["dg"]["n"])
         ctx.label("a=multiple-of-bin")
+    ax = _axis(case)
+    if ax is not None:
+        ctx.label("mirror-symmetric-spectrum")
+        if case.get("to_north"):
+            a = (-ax[0]) % 360.0 + 360.0 * (case["amult"] % 3 - 1)
+            ctx.label("axis-relabelled-to-north")
     newd = (dirs + a) % 360.0
     if len(set(newd.tolist())) != len(newd):
         ctx.label("relabel-collision(skipped)")
